@@ -217,6 +217,21 @@ def o_next(ev, st, t, site):
 def _call_closure(ev, st, closure_val, args):
     """Abstractly evaluate a closure value on argument values; returns the single result or None."""
     cv = _deref(st, closure_val)
+    if cv is not None and cv[0] == "const" and isinstance(cv[1], str) and "::" in cv[1]:
+        # a function item used as the callback (`.position(SocketAddr::is_ipv4)`): a call of that function on the arguments,
+        # given its meaning by the same oracles as a direct call
+        st2 = dict(st)
+        ops = []
+        for i, a in enumerate(args):
+            st2[-999900 - i] = a
+            ops.append({"c": {"l": -999900 - i, "p": []}})
+        TMPD = -999899
+        t = {"k": "call", "res": cv[1], "resa": cv[1], "decl": cv[1], "decla": cv[1], "resl": cv[1] in ev.fn.facts.fns, "resk": "item", "args": ops, "argtys": [],
+             "dest": {"l": TMPD, "p": []}, "t": None, "u": None, "l": None}
+        r = ev._call(st2, t)
+        if isinstance(r, list):
+            return None
+        return st2.get(TMPD)
     if cv is None or cv[0] != "variant" or not str(cv[1]).startswith("{closure}:"):
         return None
     key = cv[1].split(":", 1)[1]
